@@ -422,7 +422,23 @@ pub fn families(prop: &str, tier: Tier) -> Vec<Cfg> {
             c.max_ops = b.max_ops;
             c.max_reqs = 0;
             c.dev = 40;
-            vec![a, b, c]
+            // keep-alive traffic under partial writes
+            let mut d = Cfg::base("C15-keepalive-traffic-under-partial-writes");
+            d.props = vec!["C15"];
+            d.twin = Some(Twin::Fragment);
+            d.drain_script = true;
+            d.prune = false;
+            d.keepalive = 10;
+            d.ops = vec![OpK::Pub1, OpK::Poll, OpK::Drive, OpK::Sleep];
+            d.sleeps = vec![5_000];
+            d.io = IoMenu::partial();
+            d.broker.reorder_window = 1;
+            d.broker.fifo = true;
+            d.max_ops = if q { 4 } else { 5 };
+            d.max_conns = 1;
+            d.max_reqs = 2;
+            d.dev = 2;
+            vec![a, b, c, d]
         }
         "C16" => {
             let mut a = Cfg::base("C16-progress-after-partials-cancels-faults");
@@ -488,7 +504,18 @@ pub fn families(prop: &str, tier: Tier) -> Vec<Cfg> {
             a.max_conns = if q { 2 } else { 3 };
             a.max_reqs = 3;
             a.dev = if q { 1 } else { 2 };
-            vec![a]
+            // rejected / garbled / protocol-illegal handshakes between the connections
+            let mut b = Cfg::base("C18-status-across-failed-handshakes");
+            b.props = vec!["C18"];
+            b.ops = vec![OpK::Pub1, OpK::Pub2, OpK::Sub, OpK::Poll, OpK::DropConn];
+            b.io = IoMenu::benign();
+            b.broker.bad_handshake = true;
+            b.broker.may_lose_session = true;
+            b.max_ops = if q { 7 } else { 8 };
+            b.max_conns = if q { 3 } else { 4 };
+            b.max_reqs = 2;
+            b.dev = if q { 1 } else { 2 };
+            vec![a, b]
         }
         _ => vec![],
     }
